@@ -371,7 +371,10 @@ class Analysis:
                         return True
                 return False
             nb = inlined(prog, co, lambda cb: not cb.raw.get("coroutine") and base(cb) and "client::Subsystem" not in cb.local_ty(0) and sends(cb))
-            cache[co.id] = nb if nb.raw.get("inlined") else co
+            nb = nb if nb.raw.get("inlined") else co
+            # closures that hand something to a channel from inside `map_err(|e| ..)` & co: the adaptor is written out as its match
+            from .inline import desugar_adaptors
+            cache[co.id] = desugar_adaptors(prog, nb, sends)
         return cache[co.id]
 
     def info(self, body):
